@@ -419,6 +419,7 @@ func (l *Ledger) connected(val int) (n int, sum sdkmath.Int) {
 // Apply executes one op on the real application and updates the ledger from request and response.
 func (w *World) Apply(ctx sdk.Context, l *Ledger, op Op, fail func(a, s, d string)) (sdk.Context, string) {
 	a := w.App
+	fail = classSig(fail)
 	l.LastOp = op.K
 	switch op.K {
 	case "tick":
